@@ -5,19 +5,63 @@ CLASSIFY_PURE = [
     "spowtd.classify:get_mystery_jump_mask",
     "spowtd.classify:get_true_interval_masks",
     "spowtd.classify:find_stable_matching",
+    "spowtd.classify:check_for_uniform_time_steps",
+    "spowtd.classify:get_candidate_match_intervals",
+    "spowtd.classify:match_storms",
     "lemma:run_counter_basic",
     "lemma:run_counter_separation",
 ]
 
+_PURE_NOTE = ("Assumed: numpy primitives as specified in pyvc/libspec.py; floats as reals; int64 does not overflow; "
+              "termination of the deferred-acceptance while loop is not proved. The SQL-executing functions "
+              "(classify_interstorms, match_all_storms, classify_intervals) and disambiguate_matching are covered by the "
+              "bounded stand-in named in the evidence (labelled bounded, not counted in `discharged`).")
+
+
+def _tables(pid):
+    return {"run": "bounded.classify_tables:run_%s" % pid,
+            "what": "bounded stand-in: table-level statement of %s checked natively through load_data + classify_intervals" % pid}
+
+
 PROPS = {
     "C01": {
         "targets": CLASSIFY_PURE,
-        "level_text": "Unbounded proof, function by function, that the pure classification functions (run detector, "
-                      "mystery-jump machine, deferred-acceptance loop) meet contracts written from the property: no "
-                      "exception on any admitted input, one-to-one pairing, candidate pairs only. Obligations come "
-                      "from the AST of the current /repo source on every run.",
-        "level_note": "Assumed: numpy primitives as specified in pyvc/libspec.py (validated against the installed "
-                      "numpy on small arrays); floats as reals; termination of the while loop not proved; SQL layer "
-                      "not yet under contract in this revision.",
+        "native_only": ["spowtd.classify:disambiguate_matching"],
+        "witness_from": {"spowtd.classify:get_candidate_match_intervals": "spowtd.classify:match_storms"},
+        "bounded": [_tables("C01")],
+        "level_text": "Unbounded proof, function by function, that the array-level classification functions (run detector, "
+                      "candidate intervals, match_storms, deferred-acceptance loop, uniform-step check) meet contracts written "
+                      "from the property: no exception on any admitted input, one-to-one pairing, every pair shares a time "
+                      "step. Obligations are generated from the AST of the current /repo source on every run. The table level "
+                      "(SQL) is a bounded stand-in.",
+        "level_note": _PURE_NOTE,
+    },
+    "C02": {
+        "targets": ["spowtd.classify:find_stable_matching"],
+        "native_only": ["spowtd.classify:disambiguate_matching"],
+        "bounded": [_tables("C02")],
+        "level_text": "Unbounded proof of the deferred-acceptance loop: loop invariants I1-I5 give at exit that no candidate "
+                      "pair blocks the result (storm side by list position, rise side by preference value). The link from list "
+                      "position to duration difference (disambiguate_matching) and the table level are bounded stand-ins.",
+        "level_note": _PURE_NOTE,
+    },
+    "C03": {
+        "targets": ["spowtd.classify:get_true_interval_masks", "spowtd.classify:get_candidate_match_intervals",
+                    "spowtd.classify:match_storms", "lemma:run_counter_basic", "lemma:run_counter_separation"],
+        "witness_from": {"spowtd.classify:get_candidate_match_intervals": "spowtd.classify:match_storms"},
+        "bounded": [_tables("C03")],
+        "level_text": "Unbounded proof that the run detector returns exactly the maximal True runs and that every pair returned "
+                      "by match_storms is (maximal run of rain strictly above the threshold, maximal run of increments strictly "
+                      "above the threshold). Epoch conventions and the rain-depth view are a bounded stand-in.",
+        "level_note": _PURE_NOTE,
+    },
+    "C04": {
+        "targets": ["spowtd.classify:get_mystery_jump_mask", "spowtd.classify:get_true_interval_masks",
+                    "lemma:run_counter_basic", "lemma:run_counter_separation"],
+        "bounded": [_tables("C04")],
+        "level_text": "Unbounded proof that the mystery-jump machine computes exactly the property's predicate (some rainy step "
+                      "earlier and no jump at a rain-free sample since) and that runs are maximal; flags and interstorm rows at "
+                      "table level are a bounded stand-in.",
+        "level_note": _PURE_NOTE,
     },
 }
